@@ -15,6 +15,7 @@ THEOREMS = [
     ("EG.props.C02", "C02_validate_characterisation"),
     ("EG.props.C02", "C02_validate_sound_for_runtime"),
     ("EG.props.C02", "C02_reuse_ok"),
+    ("EG.props.C02", "C02_checker_sound"),
     ("EG.props.C02", "C02_refuted_q_end_alias_target"),
 ]
 _SHARED = {
